@@ -297,3 +297,64 @@ fn append_datalog_block(v_auth: u32, v_b1: u32) {
 }
 h!(c02_append_datalog_block_v0_v0, append_datalog_block(0, 0));
 h!(c02_append_datalog_block_v0_v1, append_datalog_block(0, 1));
+
+/// `SerializedBiscuit::new`: the signature version of the first block follows the ROOT key's
+/// algorithm, the next key's algorithm and the block's Datalog version
+fn new_via_public_entry(p256_root: bool, p256_next: bool, dl_version: u32) {
+    let root = any_keypair(p256_root);
+    let next = any_keypair(p256_next);
+    let block = crate::token::Block {
+        symbols: crate::datalog::SymbolTable::new(),
+        facts: Vec::new(),
+        rules: Vec::new(),
+        checks: Vec::new(),
+        context: None,
+        version: dl_version,
+        external_key: None,
+        public_keys: crate::token::public_keys::PublicKeys::new(),
+        scopes: Vec::new(),
+    };
+    oracle::switch_on();
+    let r = SerializedBiscuit::new(kani::any(), &root, &next, &block);
+    let expected = if p256_root || p256_next || dl_version >= 6 { 1 } else { 0 };
+    let ok = matches!(&r, Ok(t) if t.authority.version == expected);
+    kani::cover!(ok, "witness: token created with the expected signature version");
+    assert!(ok, "the first block's signature version ignores the root key algorithm, the next key algorithm or the Datalog version");
+    std::mem::forget(r);
+    std::mem::forget(root);
+    std::mem::forget(next);
+    std::mem::forget(block);
+}
+h!(c02_new_signature_version, {
+    let sel: u8 = kani::any();
+    match sel {
+        0 => new_via_public_entry(false, false, 3),
+        1 => new_via_public_entry(true, false, 3),
+        2 => new_via_public_entry(false, true, 3),
+        3 => new_via_public_entry(false, false, 6),
+        4 => new_via_public_entry(false, false, 5),
+        _ => {}
+    }
+});
+
+/// `to_proto`: the wire message carries exactly the container's fields (root key id - including
+/// 0 -, payloads, next keys, signatures, external signatures; version omitted only when 0)
+h!(c02_to_proto_fields, {
+    let t = base(1, kani::any::<bool>() as u32, 1, kani::any(), false);
+    let p = t.to_proto();
+    assert!(p.root_key_id == t.root_key_id, "root key id altered or dropped on serialization");
+    assert!(p.authority.block == t.authority.data && p.authority.signature == t.authority.signature.to_bytes(), "authority payload / signature altered");
+    assert!(p.authority.version == if t.authority.version > 0 { Some(t.authority.version) } else { None }, "authority signature version altered");
+    assert!(p.authority.external_signature.is_none());
+    assert!(p.blocks.len() == 1 && p.blocks[0].block == t.blocks[0].data && p.blocks[0].signature == t.blocks[0].signature.to_bytes() && p.blocks[0].version == Some(1), "block altered on serialization");
+    assert!(p.authority.next_key.key == t.authority.next_key.to_bytes() && p.authority.next_key.algorithm == 0, "next key altered on serialization");
+    let proof_ok = match (&p.proof.content, &t.proof) {
+        (Some(schema::proof::Content::FinalSignature(s)), TokenNext::Seal(x)) => &s[..] == x.to_bytes(),
+        (Some(schema::proof::Content::NextSecret(s)), TokenNext::Secret(k)) => &s[..] == &k.to_bytes()[..],
+        _ => false,
+    };
+    kani::cover!(proof_ok, "witness: proof serialized");
+    assert!(proof_ok, "proof altered on serialization");
+    std::mem::forget(p);
+    std::mem::forget(t);
+});
